@@ -86,13 +86,31 @@ def tables():
 
     pairs: dict[str, type] = {}
     state_pairs, info_pairs = {}, {}
-    for k, v in MC.SUBSCRIBE_STATES_RESPONSE_TYPES.items():
-        pairs[k.__name__] = v
-        state_pairs[k.__name__] = v
-    for k, v in MC.LIST_ENTITIES_SERVICES_RESPONSE_TYPES.items():
-        if v is not None:
-            pairs[k.__name__] = v
-            info_pairs[k.__name__] = v
+    # state messages are found from the compiled api.proto, not from the library's own subscription table: every
+    # server-originated message with a `key` and no `object_id` (ListEntities*), camera chunks aside; its model is the
+    # class named like the message without "Response" (AlarmControlPanelState -> ...EntityState)
+    from vf import wire as _wire
+
+    _src = _wire.descriptor_sources()
+    for _i, _c in sorted(_wire.ids()[0].items()):
+        _fn = [f.name for f in _c.DESCRIPTOR.fields]
+        if _src[_c.__name__] == 1 and "key" in _fn and "object_id" not in _fn and not _c.__name__.startswith("ListEntities") and _c.__name__ != "CameraImageResponse":
+            _base = _c.__name__[: -len("Response")]
+            _cands = [getattr(M, _base, None), getattr(M, _base.replace("State", "EntityState"), None)]
+            _m = next((x for x in _cands if isinstance(x, type) and issubclass(x, M.EntityState)), None)
+            if _m is None:
+                raise RuntimeError(f"no model class found for state message {_c.__name__}")
+            pairs[_c.__name__] = _m
+            state_pairs[_c.__name__] = _m
+    # entity-info messages likewise: ListEntities<X>Response -> <X>Info
+    for _i, _c in sorted(_wire.ids()[0].items()):
+        _n = _c.__name__
+        if _n.startswith("ListEntities") and _n.endswith("Response") and _n not in ("ListEntitiesDoneResponse", "ListEntitiesServicesResponse"):
+            _m = getattr(M, _n[len("ListEntities"): -len("Response")] + "Info", None)
+            if _m is None:
+                raise RuntimeError(f"no model class found for entity-info message {_n}")
+            pairs[_n] = _m
+            info_pairs[_n] = _m
     extra = {
         "DeviceInfoResponse": "DeviceInfo", "ListEntitiesServicesResponse": "UserService", "ListEntitiesServicesArgument": "UserServiceArg",
         "HomeassistantServiceResponse": "HomeassistantServiceCall",
